@@ -46,6 +46,14 @@ def check(model: Model, rep: Report, tier: str):
     from .c01 import r15
     with rep.isolated():
         r15(model, rep, "C10.T7")
+    from .c01 import r4
+    with rep.isolated():
+        share_rule(rep, model, r4, "C10.T8", "after repetitions are unrolled each copy follows the latest-ENDING leaf of the previous one (= C01.R4): a copy chained behind the "
+                   "latest-starting leaf begins while a longer leaf (e.g. the closing barrier) of the previous copy is still running on a shared channel")
+    from .c04 import duration_rule
+    with rep.isolated():
+        share_rule(rep, model, duration_rule, "C10.T9", "what follows a nested block starts at the block's end = start + duration, and the duration is the exact span of its operations "
+                   "(= C04.D1/D2): a truncated or partial span lets the follower start while the block still occupies the channel")
     from .common import instance_state_rule
     with rep.isolated():
         instance_state_rule(model, rep, "C10.T6", "a duration configuration belongs to its registry: the table of a duration registry is bound per instance, not a class-level "
